@@ -48,3 +48,4 @@ func vpDeadlocked() string
 func vpSetOpt(name string, v int)
 func vpRaces() int
 func vpRootCtx() context.Context
+func vpConcreteStr(s string) (string, bool) // (s,true) for a concrete string; symbolic strings cannot key a map
